@@ -68,7 +68,11 @@ def gen(g, tier):
         hostips = sorted({t.split(":")[0] for t in targets})
         cfg["fault"] = {"kind": "start-fails", "ip": g.pick(hostips), "how": g.pick(["launcher", "provisioner", "supplier"])}
     elif k == 2 and remotes and not cfg["external"]:
-        cfg["fault"] = {"kind": "daemon-leaves", "ip": g.pick(remotes), "when": g.pick(["while-waiting", "after-joined", "after-start-sent", "after-started"]), "delay": g.pick([0.0, 0.001, 0.05, 0.5])}
+        cfg["fault"] = {"kind": "daemon-leaves", "ip": g.pick(remotes), "when": g.pick(["while-waiting", "after-joined", "after-start-sent", "after-started", "after-stopped"]), "delay": g.pick([0.0, 0.001, 0.05, 0.5])}
+        if cfg["fault"]["when"] == "after-stopped":
+            # the daemon leaves right after its node mechanic has confirmed the stop, possibly while other hosts are still stopping
+            cfg["stop"] = "stop"
+            cfg["knobs"]["stall_p"] = g.pick([0.05, 0.15, 0.3])
         if cfg["fault"]["when"] == "while-waiting":
             # the daemon leaves after it has checked in while another one is still awaited
             for r in cfg["remotes"]:
@@ -143,6 +147,13 @@ class MechanicHarness(Harness):
                             c = json.loads(json.dumps(base))
                             c["fault"] = {"kind": "start-fails", "ip": ip, "how": how}
                             c["stop"] = stop
+                            yield c
+                for ip in remotes:
+                    for delay in (0.0, 0.05):
+                        for stall in (0.15, 0.4):
+                            c = json.loads(json.dumps(base))
+                            c["fault"] = {"kind": "daemon-leaves", "ip": ip, "when": "after-stopped", "delay": delay}
+                            c["knobs"] = dict(c["knobs"], stall_p=stall)
                             yield c
                 for ip in remotes:
                     for delay in (0.0, 0.05, 0.5):
@@ -330,8 +341,15 @@ class MechanicHarness(Harness):
                 if fault and fault["kind"] == "daemon-leaves" and fault["when"] == "after-start-sent" and msg.ip == fault["ip"] and "left" not in state:
                     state["left"] = True
                     system.call_at(clock.now + fault["delay"], lambda: leave(fault["ip"]))
-            if cname == "MechanicActor" and mname == "NodesStarted":
-                pass
+            if cname == "MechanicActor" and mname == "NodesStopped" and fault and fault["kind"] == "daemon-leaves" and fault["when"] == "after-stopped" and "left" not in state:
+                src = system.cell_of(sender)
+                if src is not None and src.host is not None and src.host.capabilities.get("ip") == fault["ip"]:
+                    # (only once every node mechanic of that daemon has confirmed: what a daemon that dies in the middle of a stop
+                    # means is not part of the property)
+                    state["stopped_from_ip"] = state.get("stopped_from_ip", 0) + 1
+                    if state["stopped_from_ip"] == len({t for t in cfg["targets"] if t.split(":")[0] == fault["ip"]}):
+                        state["left"] = True
+                        system.call_at(clock.now + fault["delay"], lambda: leave(fault["ip"]))
             if cname == "Dispatcher" and mname == "ActorSystemConventionUpdate" and msg.remoteAdded:
                 ip = msg.remoteCapabilities.get("ip")
                 if fault and fault["kind"] == "duplicate-join" and ip == fault["ip"] and "dup" not in state:
